@@ -72,6 +72,30 @@ PROPS = {
         },
         "assumptions": [WALKERS],
     },
+    "C03": {
+        "level": "exploration",
+        "variants": {
+            "quick": [("rel", {})],
+            "thorough": [("rel", {"timeout": 4 * 3600})],
+        },
+        "floors": [],
+        "rule": "even cases: own writer (.lzma header+size / header+EOS, raw LZMA2 ST and MT, .xz with every check and filter "
+                "chain, .lz ST and MT) -> liblzma decoder must reach StreamEnd, consume every byte and return the input; odd "
+                "cases: liblzma encoder (alone presets 0-9/extreme and custom lc/lp/pb/dict/nice/mf/mode/depth, raw LZMA2, .xz "
+                "with filter chains, checks, FullFlush block boundaries, MT encoder with size fields) -> own reader must return "
+                "the input; plus the eight xz-made tests/data/wget-*.xz files. Cell = direction|container|option class|chain|"
+                "check|family|length class; non-trivial = non-empty input. .lzma cells with lc+lp>4 are outside liblzma's "
+                "domain and counted as skipped, not judged.",
+        "manifest": {
+            "text": "Exploration with liblzma (xz 5.8) as executable reference model in both directions over thousands of seeded "
+                    "(data, option, container) cases per run.",
+            "note": "Trusts liblzma. No reference .lz ENCODER exists offline (liblzma only decodes .lz), so liblzma->ours is "
+                    "not exercised for LZIP.",
+            "technique": "runtime monitoring: differential testing against the reference implementation (liblzma)",
+        },
+        "assumptions": [LIBLZMA, "liblzma's LZMA_Alone decoder only supports lc+lp<=4; such .lzma files are judged by C01 only",
+                        "no reference .lz encoder is available offline: the liblzma->ours direction is not covered for LZIP"],
+    },
 }
 
 
